@@ -70,8 +70,9 @@ pub fn exec(kv: &Kv) -> String {
                 hex(&w),
                 cls_index(t.class()),
                 t.method(),
-                t.has_class(cls_from(c)) as u8,
-                t.has_method(m) as u8,
+                // the class / method queries for every class and for the neighbouring methods
+                (0..4u64).map(|k| if t.has_class(cls_from(k)) { '1' } else { '0' }).collect::<String>(),
+                [m, m ^ 1, m ^ 0x800, 0, 0xfff].iter().map(|k| if t.has_method(*k) { '1' } else { '0' }).collect::<String>(),
                 t.is_response() as u8
             )
         }
